@@ -2,6 +2,7 @@
 //! C12 (hostile transport input never crashes or hangs).
 
 use std::{
+    cell::Cell,
     collections::BTreeMap,
     io,
     pin::Pin,
@@ -676,11 +677,137 @@ impl PlainQuery {
     }
 }
 
-fn echo_upload(ctx: &Context<'_>, u: &Upload) -> String {
+// ---- the disk seam: `blocking::Unblock` is the inline stand-in of /verif/vendor/blocking, which asks
+// this hook before every operation on a spooled upload
+#[derive(Clone, Copy, Default, Debug)]
+struct DiskState {
+    /// 0 = off, 1 = benign only (Pending, short transfers), 2 = also errors while decoding
+    mode: u32,
+    executing: bool,
+    ops: u32,
+    pendings: u32,
+    shorts: u32,
+    errors: u32,
+}
+
+thread_local! {
+    static DISK: Cell<DiskState> = const { Cell::new(DiskState { mode: 0, executing: false, ops: 0, pendings: 0, shorts: 0, errors: 0 }) };
+    static READ_ASYNC: Cell<bool> = const { Cell::new(false) };
+}
+
+#[cfg(feature = "spool")]
+fn disk_hook(op: blocking::Op) -> blocking::Act {
+    use blocking::{Act, Op};
+    let mut d = DISK.with(|c| c.get());
+    d.ops += 1;
+    let act = if d.mode == 0 {
+        Act::Proceed
+    } else {
+        match draw(24) {
+            0..=2 => {
+                d.pendings += 1;
+                sim::count("fault:disk-pending");
+                Act::Pending
+            }
+            3 | 4 if matches!(op, Op::Write(n) | Op::Read(n) if n > 1) => {
+                d.shorts += 1;
+                sim::count("fault:disk-short-transfer");
+                let n = match op {
+                    Op::Write(n) | Op::Read(n) => n,
+                    _ => 1,
+                };
+                Act::Short(1 + draw(n as u32 - 1) as usize)
+            }
+            5 if d.mode == 2 && !d.executing && matches!(op, Op::Write(_) | Op::Seek) => {
+                d.errors += 1;
+                sim::count("fault:disk-error");
+                Act::Error([std::io::ErrorKind::StorageFull, std::io::ErrorKind::Other, std::io::ErrorKind::Interrupted, std::io::ErrorKind::WriteZero][draw(4) as usize])
+            }
+            _ => Act::Proceed,
+        }
+    };
+    DISK.with(|c| c.set(d));
+    act
+}
+
+fn disk_begin(mode: u32) {
+    DISK.with(|c| c.set(DiskState { mode, ..DiskState::default() }));
+    #[cfg(feature = "spool")]
+    blocking::__verif_set_hook(Some(disk_hook));
+}
+
+fn disk_executing() {
+    DISK.with(|c| {
+        let mut d = c.get();
+        d.executing = true;
+        c.set(d);
+    });
+}
+
+fn disk_end() -> DiskState {
+    #[cfg(feature = "spool")]
+    blocking::__verif_set_hook(None);
+    let d = DISK.with(|c| c.get());
+    DISK.with(|c| c.set(DiskState::default()));
+    d
+}
+
+/// The bytes a resolver gets through `into_async_read` (with the tempfile feature: through Unblock).
+async fn upload_bytes_async(v: async_graphql::UploadValue) -> std::io::Result<Vec<u8>> {
+    use futures_util::AsyncReadExt;
+    let mut r = Box::pin(v.into_async_read());
+    let mut b = vec![];
+    r.read_to_end(&mut b).await?;
+    Ok(b)
+}
+
+/// The bytes a resolver gets when it reads the handed-out upload from where it stands.
+fn upload_bytes(v: async_graphql::UploadValue) -> std::io::Result<Vec<u8>> {
+    #[cfg(feature = "spool")]
+    {
+        use std::io::Read;
+        let mut f = v.content;
+        let mut b = vec![];
+        f.read_to_end(&mut b)?;
+        Ok(b)
+    }
+    #[cfg(not(feature = "spool"))]
+    {
+        Ok(v.content.to_vec())
+    }
+}
+
+fn new_upload(filename: &str, data: &'static [u8]) -> async_graphql::UploadValue {
+    #[cfg(feature = "spool")]
+    {
+        use std::io::{Seek, Write};
+        let mut f = tempfile::tempfile().expect("tempfile");
+        f.write_all(data).expect("write");
+        f.rewind().expect("rewind");
+        async_graphql::UploadValue { filename: filename.into(), content_type: None, content: f }
+    }
+    #[cfg(not(feature = "spool"))]
+    {
+        async_graphql::UploadValue { filename: filename.into(), content_type: None, content: bytes::Bytes::from_static(data) }
+    }
+}
+
+async fn echo_upload(ctx: &Context<'_>, u: &Upload) -> String {
     match u.value(ctx) {
         Ok(v) => {
-            let sum: u64 = v.content.iter().map(|b| *b as u64).sum();
-            format!("{}|{}|{}|{}", v.filename, v.content_type.clone().unwrap_or_else(|| "-".into()), v.content.len(), sum)
+            let (filename, ct, size) = (v.filename.clone(), v.content_type.clone(), v.size());
+            let bytes = if READ_ASYNC.with(|c| c.get()) { upload_bytes_async(v).await } else { upload_bytes(v) };
+            match bytes {
+                Ok(b) => {
+                    let sum: u64 = b.iter().map(|b| *b as u64).sum();
+                    let size_note = match size {
+                        Ok(n) if n == b.len() as u64 => String::new(),
+                        other => format!("|size={other:?}"),
+                    };
+                    format!("{}|{}|{}|{}{}", filename, ct.unwrap_or_else(|| "-".into()), b.len(), sum, size_note)
+                }
+                Err(e) => format!("unreadable content: {e}"),
+            }
         }
         Err(e) => format!("unreadable: {e}"),
     }
@@ -689,19 +816,38 @@ fn echo_upload(ctx: &Context<'_>, u: &Upload) -> String {
 #[Object]
 impl UpQuery {
     async fn echo_opt(&self, ctx: &Context<'_>, f: Option<Upload>) -> Option<String> {
-        f.map(|u| echo_upload(ctx, &u))
+        match f {
+            Some(u) => Some(echo_upload(ctx, &u).await),
+            None => None,
+        }
     }
     async fn echo_list(&self, ctx: &Context<'_>, fs: Option<Vec<Option<Upload>>>) -> Vec<Option<String>> {
-        fs.unwrap_or_default().into_iter().map(|u| u.map(|u| echo_upload(ctx, &u))).collect()
+        let mut out = vec![];
+        for u in fs.unwrap_or_default() {
+            out.push(match u {
+                Some(u) => Some(echo_upload(ctx, &u).await),
+                None => None,
+            });
+        }
+        out
     }
     async fn echo_obj(&self, ctx: &Context<'_>, o: Option<UpIn>) -> Option<String> {
-        o.and_then(|o| o.f.map(|u| format!("{}#{}", echo_upload(ctx, &u), o.n.unwrap_or(0))))
+        let o = o?;
+        let u = o.f?;
+        Some(format!("{}#{}", echo_upload(ctx, &u).await, o.n.unwrap_or(0)))
     }
     async fn echo_obj_list(&self, ctx: &Context<'_>, o: Option<UpIn>) -> Vec<Option<String>> {
-        o.and_then(|o| o.fs).unwrap_or_default().into_iter().map(|u| u.map(|u| echo_upload(ctx, &u))).collect()
+        let mut out = vec![];
+        for u in o.and_then(|o| o.fs).unwrap_or_default() {
+            out.push(match u {
+                Some(u) => Some(echo_upload(ctx, &u).await),
+                None => None,
+            });
+        }
+        out
     }
     async fn echo_req(&self, ctx: &Context<'_>, f: Upload) -> String {
-        echo_upload(ctx, &f)
+        echo_upload(ctx, &f).await
     }
     async fn plain(&self, s: Option<String>, n: Option<i32>) -> String {
         format!("{:?}{:?}", s, n)
@@ -720,16 +866,16 @@ const UP_QUERY: &str = "mutation($a: Upload, $b: [Upload], $o: UpIn) { a: echoOp
 
 pub static C24: CheckDef = CheckDef {
     id: "C24",
-    variants: &["fault-free", "reader-faults"],
+    variants: &["fault-free", "reader-faults", "spool-delays", "spool-faults"],
     run: run_c24,
     quick_runs: 300_000,
     thorough_runs: 20_000_000,
-    rule: "case = generated multipart request: single or batch (1-3) operations, 0-4 file parts (sizes around max_file_size), a map that binds files to variable paths (several paths per file, list and object paths, per-request batch paths), part order permuted, missing and extra files, generated MultipartOptions (max_file_size, max_num_files or none); the body is delivered through the simulated reader (chunking, Pending gaps; 'reader-faults' adds truncation and I/O errors). Oracle: reference model of the multipart request spec computes either the rejection or the binding (request, variable path) -> file; bindings are observed by executing every decoded request against a schema whose Upload arguments echo file name, content type, length and byte sum. Fault-free: outcome must equal the model; under reader faults a failure is acceptable only if a fault fired, success must equal the model. Non-trivial = at least one file was bound or a limit/missing-file rejection was expected; distinct = distinct event-order hashes.",
-    real: &["async_graphql::http::receive_batch_body -> receive_batch_multipart", "ReaderStream (2 KiB buffer) + multer with size constraints", "Request::set_upload", "Upload input type + executor"],
-    stub: &["request body (simulated AsyncRead)", "async runtime"],
-    assumptions: &["the tempfile feature is off, so uploads are in-memory Bytes (no blocking thread pool, no real files)"],
-    restrictions: &["when the operations or map part itself exceeds max_file_size, or the whole body exceeds max_file_size*max_num_files, the library's byte budgets reject the request; the model accepts either outcome there (counted as probe:byte-budget-ambiguous)", "variable paths in the map always point at existing variable positions"],
-    expected_probes: &["probe:file-bound-to-several-paths", "probe:batch-path", "probe:more-files-than-max", "probe:file-over-max-size", "probe:chunk-split-inside-boundary", "probe:map-entry-without-file", "probe:two-files-same-filename"],
+    rule: "case = generated multipart request: single or batch (1-3, now and then 11-12) operations, 0-6 file parts (sizes around max_file_size), a map that binds files to variable paths (several paths per file, list and object paths, per-request batch paths), part order permuted, missing and extra files, generated MultipartOptions (max_file_size, max_num_files or none); the body is delivered through the simulated reader (chunking, Pending gaps; 'reader-faults' adds truncation and I/O errors). The harness is built with async-graphql's default tempfile feature, so every file part is spooled to a real temporary file through blocking::Unblock, which is the inline stand-in of /verif/vendor/blocking: the simulator decides at that seam whether an operation proceeds, returns Pending first, transfers fewer bytes than asked ('spool-delays') or fails with StorageFull / Other / Interrupted / WriteZero ('spool-faults', only while the request is being decoded). Oracle: reference model of the multipart request spec computes either the rejection or the binding (request, variable path) -> file; bindings are observed by executing every decoded request against a schema whose Upload arguments read the handed-out upload (directly from the File or through into_async_read, drawn per case) and echo file name, content type, length, byte sum and size(). Fault-free and spool-delays: outcome must equal the model; under reader or disk errors a failure is acceptable only if a fault fired, an injected error must not be swallowed, success must equal the model. Non-trivial = at least one file was bound or a limit/missing-file rejection was expected; distinct = distinct event-order hashes.",
+    real: &["async_graphql::http::receive_batch_body -> receive_batch_multipart (tempfile branch)", "ReaderStream (2 KiB buffer) + multer with size constraints", "tempfile::tempfile (real unnamed files)", "Request::set_upload", "Upload input type, Upload::value, UploadValue::{try_clone, size, into_async_read} + executor"],
+    stub: &["request body (simulated AsyncRead)", "blocking::Unblock (inline stand-in with the simulator's fault hook instead of a thread pool)", "async runtime"],
+    assumptions: &["resolvers read an upload to its end before the next resolver of the request reads (mutation root fields run serially); concurrently interleaved reads of two handles of one file are not exercised"],
+    restrictions: &["when the operations or map part itself exceeds max_file_size, or the whole body exceeds max_file_size*max_num_files, the library's byte budgets reject the request; the model accepts either outcome there (counted as probe:byte-budget-ambiguous)", "variable paths in the map always point at existing variable positions", "the in-memory (tempfile feature off) branch is exercised only when the harness is built with --no-default-features"],
+    expected_probes: &["probe:file-bound-to-several-paths", "probe:batch-path", "probe:more-files-than-max", "probe:file-over-max-size", "probe:chunk-split-inside-boundary", "probe:map-entry-without-file", "probe:two-files-same-filename", "probe:upload-spooled-to-disk"],
 };
 
 #[derive(Clone, Debug)]
@@ -748,6 +894,13 @@ fn expected_echo(f: &GenFile) -> String {
 fn run_c24(variant: usize) -> CaseOut {
     let mut out = CaseOut::default();
     let faults = variant == 1;
+    // variants 2 and 3 drive the disk seam: Pending and short transfers (2), also write/seek errors (3)
+    let disk_mode = match variant {
+        2 => 1,
+        3 => 2,
+        _ => 0,
+    };
+    READ_ASYNC.with(|c| c.set(chance(1, 2)));
     // 0 = single; batches of 1-3, now and then of 11-12 (two-digit request indices)
     let n_req = if chance(1, 3) { if chance(1, 8) { 11 + draw(2) as usize } else { 1 + draw(3) as usize } } else { 0 };
     let reqs = n_req.max(1);
@@ -874,8 +1027,10 @@ fn run_c24(variant: usize) -> CaseOut {
     }
     let plan = draw_plan(faults, body.len());
     let (reader, stats) = SimReader::new(body.clone(), plan.clone());
+    disk_begin(disk_mode);
     let res = decode("multipart", async move {
         let batch = receive_batch_body(Some(mp_content_type()), reader, opts).await.map_err(|e| format!("{e:?}"))?;
+        disk_executing();
         let reqs: Vec<Request> = match batch {
             BatchRequest::Single(r) => vec![r],
             BatchRequest::Batch(v) => v,
@@ -886,21 +1041,26 @@ fn run_c24(variant: usize) -> CaseOut {
         }
         Ok::<_, String>(outs)
     });
+    let disk = disk_end();
     let st = stats.borrow();
     if st.split_inside_boundary {
         sim::count("probe:chunk-split-inside-boundary");
     }
+    if disk.ops > 0 {
+        sim::count("probe:upload-spooled-to-disk");
+    }
     let desc = format!(
-        "options max_file_size={:?} max_num_files={:?}; {} request(s); files {:?}; map {:?}; part order {:?}; reader plan {:?}",
+        "options max_file_size={:?} max_num_files={:?}; {} request(s); files {:?}; map {:?}; part order {:?}; reader plan {:?}; disk {disk:?}; async reads {}",
         max_file_size,
         max_num_files,
         if n_req == 0 { "single".to_string() } else { format!("batch of {n_req}") },
         files.iter().map(|f| (f.name.clone(), f.data.len())).collect::<Vec<_>>(),
         map,
         parts.iter().map(|p| p.name.clone()).collect::<Vec<_>>(),
-        plan
+        plan,
+        READ_ASYNC.with(|c| c.get())
     );
-    let fault_fired = st.truncated || st.errored;
+    let fault_fired = st.truncated || st.errored || disk.errors > 0;
     out.nontrivial = !binding.is_empty() || expect_reject;
     let Some(res) = res else {
         out.viol("C24/stall", format!("decoding did not finish; {desc}"));
@@ -915,7 +1075,7 @@ fn run_c24(variant: usize) -> CaseOut {
             }
         }
         Ok(outs) => {
-            if st.errored {
+            if st.errored || disk.errors > 0 {
                 out.viol("C24/io-error-swallowed", format!("an injected I/O error was not reported; {desc}"));
             } else if expect_reject && !(st.truncated) {
                 let (class, finding): (&str, Option<&'static str>) = if over_count && !over_size && !missing_file { ("C24/too-many-files-accepted", Some("C24-max-num-files-not-enforced")) } else if over_size { ("C24/oversized-file-accepted", None) } else { ("C24/missing-file-accepted", None) };
@@ -957,9 +1117,9 @@ pub static C12: CheckDef = CheckDef {
     run: run_c12,
     quick_runs: 300_000,
     thorough_runs: 20_000_000,
-    rule: "transport-facing surfaces only. http-body: valid JSON / batch / multipart bodies mutated at byte level (flips, cuts, duplications, inserted brackets up to depth 200, huge numbers, invalid \\u escapes) and delivered through the simulated reader with chunking, Pending gaps, truncation and I/O errors (ConnectionReset, Interrupted, Other, UnexpectedEof), followed by execution of whatever was decoded. multipart-hostile: broken boundaries, headers without names, map entries of the wrong kind, files without file names. websocket-hostile: mutated and random message sequences into the real WebSocket under both protocols. forged-upload-markers: variables that forge the internal upload marker with and without uploaded files. Oracle: no panic (caught per run and attributed by source location), no stall or step-cap once the input has ended, and every malformed input is answered with an error value. Non-trivial = a fault fired or the input was mutated; distinct = distinct event-order hashes.",
+    rule: "transport-facing surfaces only. http-body: valid JSON / batch / multipart bodies mutated at byte level (flips, cuts, duplications, inserted brackets up to depth 200, huge numbers, invalid \\u escapes) and delivered through the simulated reader with chunking, Pending gaps, truncation and I/O errors (ConnectionReset, Interrupted, Other, UnexpectedEof), followed by execution of whatever was decoded. multipart-hostile: broken boundaries, headers without names, map entries of the wrong kind, files without file names, placeholders pre-filled with forged upload markers, and (half of the runs) a spool disk that delays, shortens or fails writes. websocket-hostile: mutated and random message sequences into the real WebSocket under both protocols. forged-upload-markers: variables that forge the internal upload marker with and without uploaded files, and uploads bound through Request::set_upload onto positions that already hold a forged marker. Oracle: no panic (caught per run and attributed by source location), no stall or step-cap once the input has ended, and every malformed input is answered with an error value. Non-trivial = a fault fired or the input was mutated; distinct = distinct event-order hashes.",
     real: &["receive_body / receive_batch_body / receive_json over the simulated reader", "multer", "WebSocket::poll_next", "Upload::parse / Upload::value", "executor on the decoded request"],
-    stub: &["request body, client inbox (simulated)", "async runtime"],
+    stub: &["request body, client inbox (simulated)", "blocking::Unblock (inline stand-in with the simulator's fault hook)", "async runtime"],
     assumptions: &["stack overflow and allocation failure abort the process and are outside this check; the 200k-bracket parser overflow named in the property's rationale is a pure-input search (fuzzing), not a schedule or fault"],
     restrictions: &["nesting depth of injected brackets is capped at 200; grammar-level fuzzing of the GraphQL parser is not attempted"],
     expected_probes: &["probe:decoded-and-executed", "probe:forged-marker-reached-executor", "probe:ws-closed-on-hostile-input"],
@@ -1012,7 +1172,16 @@ fn run_c12(variant: usize) -> CaseOut {
                     _ => (Some(gen_text()), serde_json::to_vec(&req_json(&r)).unwrap()),
                 }
             } else {
-                let one = json!({"query": UP_QUERY, "variables": {"a": null, "b": [null], "o": {"f": null}}});
+                // the placeholders the map points at are usually null, sometimes already filled by the
+                // client with a forged internal upload marker or another value
+                let ph = |_: u32| match draw(8) {
+                    0 => json!("#__graphql_file__:7"),
+                    1 => json!("#__graphql_file__:0"),
+                    2 => json!(["#__graphql_file__:18446744073709551615", "#__graphql_file__:x"][draw(2) as usize]),
+                    3 => gen_json(1),
+                    _ => json!(null),
+                };
+                let one = json!({"query": UP_QUERY, "variables": {"a": ph(0), "b": [ph(1)], "o": {"f": ph(2)}}});
                 let ops = if chance(1, 3) { json!([one.clone(), one.clone()]) } else { one };
                 let mut parts = vec![
                     Part { name: "operations".into(), filename: None, content_type: match draw(6) {
@@ -1049,6 +1218,8 @@ fn run_c12(variant: usize) -> CaseOut {
             let plan = draw_plan(true, body.len());
             let (reader, _stats) = SimReader::new(body.clone(), plan.clone());
             let use_json_fn = variant == 0 && chance(1, 4);
+            // hostile multipart bodies also meet a failing disk while their files are spooled
+            disk_begin(if variant == 1 && chance(1, 2) { 2 } else { 0 });
             let res = decode("hostile-body", async move {
                 let decoded = if use_json_fn {
                     receive_json(reader).await.map(BatchRequest::Single)
@@ -1064,8 +1235,9 @@ fn run_c12(variant: usize) -> CaseOut {
                     }
                 }
             });
+            let disk = disk_end();
             if res.is_none() {
-                out.viol("C12/stall", format!("decoding a hostile body did not finish; body {:?}; plan {:?}", String::from_utf8_lossy(&body), plan));
+                out.viol("C12/stall", format!("decoding a hostile body did not finish; body {:?}; plan {:?}; disk {disk:?}", String::from_utf8_lossy(&body), plan));
             }
             if sim::verbose() {
                 out.sample = Some(json!({"body": String::from_utf8_lossy(&body[..body.len().min(400)]), "plan": format!("{:?}", plan), "result": format!("{:?}", res).chars().take(400).collect::<String>()}));
@@ -1078,11 +1250,17 @@ fn run_c12(variant: usize) -> CaseOut {
             let m = |_: u32| json!(markers[draw(markers.len() as u32) as usize]);
             let vars = json!({"a": m(0), "b": [m(1), null], "o": {"f": m(2), "n": 1}});
             let with_upload = chance(1, 2);
+            let bind = chance(1, 3);
+            let bind_at = draw(4) as usize;
             let res = decode("forged-marker", async move {
                 let mut req = Request::new(UP_QUERY).variables(async_graphql::Variables::from_json(vars));
                 if with_upload {
                     // a real upload at index 0, bound to nothing
-                    req.uploads.push(async_graphql::UploadValue { filename: "real.bin".into(), content_type: None, content: bytes::Bytes::from_static(b"real") });
+                    req.uploads.push(new_upload("real.bin", b"real"));
+                }
+                if bind {
+                    // ... and one bound through the public API onto a position that already holds a forged marker
+                    req.set_upload(["variables.a", "variables.b.0", "variables.o.f", "variables.b.1"][bind_at], new_upload("bound.bin", b"bound"));
                 }
                 sim::count("probe:forged-marker-reached-executor");
                 serde_json::to_value(up_schema().execute(req).await).unwrap()
